@@ -215,12 +215,21 @@ def run_sequence(sid, ops, text, other, want=None):
     return recs, results
 
 
-def _judge(ctx, seqs, text, origin, variant):
+def _selection(spec):
+    """{"form": "list" | "tuple", "pairs": [[instrument, difficulty], ...]} -> the want_tracks argument (None: no selection)."""
+    if spec is None:
+        return None
+    from chartgen import want_pairs
+    w = want_pairs([tuple(p) for p in spec["pairs"]])
+    return tuple(w) if spec["form"] == "tuple" else list(w)
+
+
+def _judge(ctx, seqs, text, origin, variant, want=None):
     other = parse(base_text(1 if variant != 1 else 0))
     recs = []
     owner = {}
     for sid, ops, expect_last in seqs:
-        rs, results = run_sequence(sid, ops, text, other)
+        rs, results = run_sequence(sid, ops, text, other, want=_selection(want))
         ctx.evaluations += 1
         ctx.distinct(ops)
         if expect_last is not None and results and results[-1] != expect_last:
@@ -238,7 +247,7 @@ def _judge(ctx, seqs, text, origin, variant):
     for rid, p, clause in ctx.validate(recs):
         sid, ops, accepted = owner[rid]
         step = int(rid.rsplit(".", 1)[1])
-        ctx.violation(clause, {"kind": "ops", "ops": ops[:step + 1], "variant": variant, "text": text, "accepted_assignments": accepted},
+        ctx.violation(clause, {"kind": "ops", "ops": ops[:step + 1], "variant": variant, "text": text, "accepted_assignments": accepted, "want": want},
                       key=clause + "|" + json.dumps(ops[step]))
 
 
@@ -269,6 +278,14 @@ def run(ctx):
         n = r.choice([3, 4, 5, 6])
         seqs.append((f"s{k}", [r.choice(alphabet) for _ in range(n)], None))
     _judge(ctx, seqs, text, "seeded longer sequences", 0)
+    # the chart parsed under a track selection (how a chart was obtained must not matter to its being a value): an empty
+    # selection in both forms, one track, a track the file does not have, several tracks
+    sels = [{"form": "list", "pairs": []}, {"form": "tuple", "pairs": []}, {"form": "list", "pairs": [["GUITAR", "EXPERT"]]},
+            {"form": "tuple", "pairs": [["DRUMS", "EASY"]]}, {"form": "list", "pairs": [["BASS", "EASY"], ["GUITAR", "HARD"], ["KEYS", "MEDIUM"]]}]
+    singles = [(f"w{k}", [op], None) for k, op in enumerate(alphabet)]
+    for j, sel in enumerate(sels):
+        some = singles + [(f"w{j}s{k}", ops, None) for k, (sid, ops, last) in enumerate(seqs[j::len(sels)][:ctx.pick(60, 600)])]
+        _judge(ctx, some, text, f"sequences on a chart parsed with the selection {sel['pairs']} ({sel['form']})", 0, want=sel)
     ctx.exhaustive = True
     ctx.assumptions += [
         "the projection Obs(chart) (harness/observe.py) is the 'publicly observable data' of the property",
@@ -277,4 +294,4 @@ def run(ctx):
 
 
 def replay(ctx, obj):
-    _judge(ctx, [("replay", obj["ops"], None)], obj["text"], "replay", obj.get("variant", 0))
+    _judge(ctx, [("replay", obj["ops"], None)], obj["text"], "replay", obj.get("variant", 0), want=obj.get("want"))
